@@ -45,7 +45,7 @@ func (c13) RealStub() map[string]string {
 }
 func (c13) Runs(t Tier) int {
 	if t == Thorough {
-		return 150000
+		return 250000
 	}
 	return 9000
 }
